@@ -37,6 +37,16 @@ from __future__ import annotations
 import ast
 import operator
 
+def _walk_own_stmts(node):
+    """ast.walk that does not enter nested function / class bodies"""
+    stack = [node]
+    while stack:
+        n = stack.pop()
+        yield n
+        for ch in ast.iter_child_nodes(n):
+            if not isinstance(ch, (ast.FunctionDef, ast.AsyncFunctionDef, ast.Lambda, ast.ClassDef)):
+                stack.append(ch)
+
 class Unsupported(Exception):
     def __init__(self, node, why=""):
         self.node = node
@@ -236,6 +246,19 @@ class SymExec:
                 self.emit('del', self.expr(_load(t)), node=s)
         elif isinstance(s, ast.If):
             self.do_if(s)
+        elif isinstance(s, ast.Try) and not any(isinstance(n, ast.Raise) for b in s.body for n in _walk_own_stmts(b)):
+            # the guards extracted here describe the runs in which nothing called inside the try raises (the stand-ins of the decision tables do
+            # not raise; what happens when a decoder raises is the subject of other rules): body, then else, then finally; the handlers are
+            # recorded as one event so that a consumer can see that they exist
+            self.emit('try', tuple(ast.unparse(h.type) if h.type is not None else '<bare>' for h in s.handlers), node=s)
+            self.block(s.body)
+            if not self.state.dead:
+                self.block(s.orelse)
+            if s.finalbody:
+                dead = self.state.dead
+                self.state.dead = False
+                self.block(s.finalbody)
+                self.state.dead = self.state.dead or dead
         elif isinstance(s, (ast.Import, ast.ImportFrom)):
             return
         elif isinstance(s, ast.For) and not s.orelse and isinstance(s.target, (ast.Name, ast.Tuple)) \
